@@ -931,7 +931,21 @@ func (a *apiSim) c13() {
 				locator = append(locator, lc[k].Hash)
 			}
 		}
-		if n > 0 && t.Chance(1, 4, "model-locator") {
+		// a long locator (the protocol allows 500 entries): sizes around the hundreds, known and unknown hashes mixed
+		if t.Chance(1, 12, "long-locator") {
+			locator = nil
+			nl := []int{99, 100, 101, 150, 199, 200, 201, 300, 499, 500}[t.Draw(10, "long-locator-len")]
+			for i := 0; i < nl; i++ {
+				if t.Chance(1, 2, "ll-known") {
+					locator = append(locator, lc[t.Draw(len(lc), "ll-lc")].Hash)
+				} else {
+					locator = append(locator, a.h.uniqueHash("loc-unknown"))
+				}
+			}
+			n = nl
+			r.Probe("long-locator")
+		}
+		if n > 0 && n < 99 && t.Chance(1, 4, "model-locator") {
 			locator = nil
 			for _, x := range m.Locator() {
 				locator = append(locator, x.Hash)
